@@ -806,7 +806,7 @@ impl Encode for Poplar1AggregationParam {
     }
 
     fn encoded_len(&self) -> Option<usize> {
-        let encoded_prefixes_len = ((self.level + 1) as usize).div_ceil(8) * self.prefixes.len();
+        let encoded_prefixes_len = (usize::from(self.level) + 1).div_ceil(8) * self.prefixes.len();
         // 4 bytes for the number of prefixes, 2 bytes for the level, and a variable number of bytes
         // for the encoded prefixes themselves.
         Some(6 + encoded_prefixes_len)
@@ -823,7 +823,7 @@ impl Decode for Poplar1AggregationParam {
             usize::try_from(u32::decode(bytes)?).map_err(|e| CodecError::Other(e.into()))?;
 
         // Validate num_prefixes against remaining bytes before allocating.
-        let prefix_byte_len = ((level + 1) as usize).div_ceil(8);
+        let prefix_byte_len = (usize::from(level) + 1).div_ceil(8);
         let remaining = bytes.get_ref().len().saturating_sub(
             usize::try_from(bytes.position()).map_err(|e| CodecError::Other(e.into()))?,
         );
@@ -836,7 +836,7 @@ impl Decode for Poplar1AggregationParam {
         // Encoded prefixes
         let mut prefixes = Vec::with_capacity(num_prefixes);
         let mut buf = vec![0; prefix_byte_len];
-        let last_byte_mask = match (level + 1) % 8 {
+        let last_byte_mask = match (usize::from(level) + 1) % 8 {
             0 => 0,
             num_bits => {
                 let mut mask = 0;
